@@ -6,6 +6,7 @@ import sys, os, json, random, collections, math
 HERE = os.path.dirname(os.path.abspath(__file__)); sys.path.insert(0, HERE)
 from gen import Gen, Pool, py_proto
 from common import model, build_module, fresh, case_hash
+from apischema.cache import reset as _cache_reset
 
 
 def canon_schema(p):
@@ -129,6 +130,7 @@ def run(prop, seed, budget, ctx):
     failures, hist, distinct, samples, reqs, meta = [], collections.Counter(), set(), [], [], []
     evaluations = 0
     for t in types:
+        _cache_reset()      # typing-equal types (Literal[1, True] / Literal[True, 1]) share one cache entry: finding KF13, not this property
         tp = eval(t.py, ns); ap = rnd.random() < 0.3
         if prop == "C06":
             try: real = deserialization_schema(tp, additional_properties=ap, with_schema=False)
